@@ -33,6 +33,21 @@ static void ad_reverse_name(int family, const uint8_t *a, char *out, size_t outl
   }
 }
 
+/* addresses listed in the hosts file (gen_default_appcfg) and the names the file gives them, in file order */
+#define AD_NREV 5
+static const struct {
+  int         family;
+  uint8_t     addr[16];
+  const char *names[3];
+} ad_rev[AD_NREV] = {
+  { AF_INET, { 10, 1, 2, 3 }, { "hostfile.example.com", "hf", NULL } },
+  { AF_INET6, { 0xfd, 0x5e, 0, 0, 0, 0, 0, 0, 0, 0, 0, 0, 0, 0, 0, 7 }, { "hostfile6.example.com", "hf6", NULL } },
+  { AF_INET6, { 0x20, 0x01, 0x0d, 0xb8, 0x85, 0xa3, 0x08, 0xd3, 0x13, 0x19, 0x8a, 0x2e, 0x03, 0x70, 0x73, 0x48 }, { "longsix.example.com", "l6", NULL } },
+  { AF_INET6, { 0, 0, 0, 0, 0, 0, 0, 0, 0, 0, 0xff, 0xff, 203, 0, 113, 77 }, { "mapped.example.com", NULL, NULL } },
+  { AF_INET, { 10, 1, 2, 4 }, { "dual.example.com", "dual", NULL } },
+};
+static int ad_rev_idx;
+
 static void gen_addr(vh_rng_t *rng)
 {
   app_tok_t *t;
@@ -112,6 +127,14 @@ static void gen_addr(vh_rng_t *rng)
       }
       t->addr[0] = 0x20;
     }
+    if (app_cfg.lookups[0] == 'f' && vh_chance(rng, 1, 3)) {
+      /* an address that is in the hosts file, which is asked first: the names come from there, no question is sent */
+      ad_rev_idx     = (int)vh_below(rng, AD_NREV);
+      t->family      = ad_rev[ad_rev_idx].family;
+      memset(t->addr, 0, sizeof(t->addr));
+      memcpy(t->addr, ad_rev[ad_rev_idx].addr, t->family == AF_INET ? 4 : 16);
+      ad_expect_kind = 5;
+    }
     ad_reverse_name(t->family, t->addr, ad_revname, sizeof(ad_revname));
     snprintf(t->name, sizeof(t->name), "(addr)");
     if (ad_plan.nrec == 0 && vh_chance(rng, 1, 2)) {
@@ -145,6 +168,35 @@ static void gen_addr(vh_rng_t *rng)
     } else {
       snprintf(t->name, sizeof(t->name), "a%d.addr.test", (int)vh_below(rng, 1000));
     }
+  }
+  if (strchr(app_cfg.lookups, 'f') && app_cfg.lookups[0] == 'f' && vh_chance(rng, 1, 10)) {
+    /* two hosts files on one channel: the channel's own and the one $CARES_HOSTS names, which only lookups that ask
+     * for it (ARES_AI_ENVHOSTS) may use; requests of both kinds follow each other in any order */
+    int n6 = vh_range(rng, 2, 5), k6;
+    snprintf(app_cfg.env_hosts_content, sizeof(app_cfg.env_hosts_content), "10.9.9.9 hostfile.example.com\n10.9.9.8 envonly.example.com\n");
+    app_ntok = 0;
+    app_nact = 0;
+    for (k6 = 0; k6 < n6; k6++) {
+      int        ti6 = gen_add_token(rng, (int64_t)k6 * 5000);
+      app_tok_t *t6;
+      if (ti6 < 0) {
+        break;
+      }
+      t6         = &app_tok[ti6];
+      t6->action = RA_NONE;
+      t6->family = AF_INET;
+      t6->port   = 0;
+      snprintf(t6->name, sizeof(t6->name), "hostfile.example.com");
+      if (vh_chance(rng, 1, 4)) {
+        t6->kind     = RK_GETHOSTBYNAME; /* never looks at $CARES_HOSTS */
+        t6->ai_flags = 0;
+      } else {
+        t6->kind     = RK_GETADDRINFO;
+        t6->ai_flags = ARES_AI_NOSORT | (vh_chance(rng, 1, 2) ? ARES_AI_ENVHOSTS : 0);
+      }
+    }
+    ad_expect_kind = 6;
+    sim_note("addr_two_hosts_files");
   }
   /* server behaviour: one rule for every question */
   s->nrules = 1;
@@ -204,8 +256,64 @@ static void mon_addr(void)
   app_tok_t *t = &app_tok[0];
   static uint32_t exp[2048], got[2048];
   int             nexp = 0, ngot = 0, i, k;
+  if (ad_expect_kind == 6) {
+    int j6;
+    for (j6 = 0; j6 < app_ntok; j6++) {
+      static const uint8_t own4[4] = { 10, 1, 2, 3 }, env4[4] = { 10, 9, 9, 9 };
+      app_tok_t           *u       = &app_tok[j6];
+      int                  env     = u->kind == RK_GETADDRINFO && (u->ai_flags & ARES_AI_ENVHOSTS);
+      if (!u->started || u->cb_count != 1) {
+        continue;
+      }
+      MON_EVAL("addr_two_hosts_files");
+      if (u->cb_status != ARES_SUCCESS || u->naddr != 1 || memcmp(u->addr_raw[0], env ? env4 : own4, 4) != 0) {
+        vh_violation("addr:wrong-hosts-file",
+                     "request %d of %d (%s, %s $CARES_HOSTS) for a name both hosts files list: status %d, %d address(es), first %u.%u.%u.%u, "
+                     "the file that applies says %s", j6 + 1, app_ntok, rk_names[u->kind], env ? "asks for" : "does not ask for", u->cb_status,
+                     u->naddr, u->addr_raw[0][0], u->addr_raw[0][1], u->addr_raw[0][2], u->addr_raw[0][3], env ? "10.9.9.9" : "10.1.2.3");
+        return;
+      }
+    }
+    if (sim_ntx != 0) {
+      vh_violation("addr:hosts-hit-went-to-network", "name in both hosts files with lookups '%s' still caused %d questions", app_cfg.lookups, sim_ntx);
+    }
+    return;
+  }
   if (!t->started || t->cb_count != 1) {
     vh_inconclusive("addr-request-not-completed");
+    return;
+  }
+  if ((t->kind == RK_GETHOSTBYADDR || t->kind == RK_GETNAMEINFO) && ad_expect_kind == 5) {
+    int k2;
+    MON_EVAL("addr_reverse_hosts_file");
+    if (sim_ntx != 0) {
+      vh_violation("addr:hosts-hit-went-to-network", "address in the hosts file with lookups '%s' still caused %d questions (first '%s')",
+                   app_cfg.lookups, sim_ntx, sim_tx[0].qname);
+      return;
+    }
+    if (t->cb_status != ARES_SUCCESS) {
+      vh_violation("addr:reverse-hosts-missed", "address of '%s' is in the hosts file, lookups '%s', but the lookup ended with status %d",
+                   ad_rev[ad_rev_idx].names[0], app_cfg.lookups, t->cb_status);
+      return;
+    }
+    if (t->kind == RK_GETHOSTBYADDR) {
+      for (i = 0; i < t->nptr; i++) {
+        int ok = 0;
+        for (k2 = 0; k2 < 3 && ad_rev[ad_rev_idx].names[k2]; k2++) {
+          ok |= !strcasecmp(t->ptrnames[i], ad_rev[ad_rev_idx].names[k2]);
+        }
+        if (!ok) {
+          vh_violation("addr:reverse-name-invented", "returned name '%s' is not one the hosts file gives that address", t->ptrnames[i]);
+          return;
+        }
+      }
+      if (t->nptr < 1 || strcasecmp(t->ptrnames[0], ad_rev[ad_rev_idx].names[0]) != 0) {
+        vh_violation("addr:reverse-hosts-name", "first name returned is '%s', the hosts file says '%s'", t->nptr ? t->ptrnames[0] : "(none)",
+                     ad_rev[ad_rev_idx].names[0]);
+      }
+    } else if (strcasecmp(t->canon, ad_rev[ad_rev_idx].names[0]) != 0) {
+      vh_violation("addr:reverse-hosts-name", "node returned is '%s', the hosts file says '%s'", t->canon, ad_rev[ad_rev_idx].names[0]);
+    }
     return;
   }
   if (t->kind == RK_GETHOSTBYADDR || t->kind == RK_GETNAMEINFO) {
